@@ -3,8 +3,13 @@ package main
 import (
 	"fmt"
 	"go/ast"
+	"go/token"
 	"go/types"
+	"os"
+	"sort"
 	"strings"
+
+	"golang.org/x/tools/go/packages"
 )
 
 // Gen/Lock.lean (C14): two facts of cmsys/lock.go and cmsys/record.go the lock-table theorems rest on.
@@ -15,6 +20,12 @@ import (
 //  2. lockUsers: every function that takes one of these locks registers the matching unlock with
 //     `defer` before any other statement that can return ("deferred"); a return between the successful
 //     lock and the defer is "return-before-defer", no deferred unlock at all is "no-defer".
+//     Every package of the repository is searched (go/packages, pattern <module>/...).
+//  3. lockClose: for the same functions, whose descriptor the unlock is given and when the file is closed
+//     (see closeVerdict): "unlock-before-close" when the deferred unlock names the locked file and runs
+//     while that file is still open.
+//  4. appendCallers: every call of cmsys.AppendRecord in the repository and what the caller does with the
+//     error (see appendCallerVerdict): "propagates" / "ignores" / "retries" / "fallback:<writer>".
 func init() {
 	register("Lock", func(l *loader, repo, out string) {
 		lf := newLean("Lock")
@@ -51,8 +62,11 @@ func init() {
 			first = false
 			lf.raw(fmt.Sprintf("(%q, %q)", pkg+"."+name, verdict))
 		}
-		for _, pk := range []string{"cmsys", "ptt"} {
-			pp := l.load(pk)
+		all := loadAllPackages(l)
+		type closeFact struct{ name, verdict string }
+		var closes []closeFact
+		for _, pp := range all {
+			pk := strings.TrimPrefix(strings.TrimPrefix(pp.PkgPath, modPath), "/")
 			for _, f := range pp.Syntax {
 				for _, d := range f.Decls {
 					fd, ok := d.(*ast.FuncDecl)
@@ -64,9 +78,30 @@ func init() {
 					}
 					if v := lockUserVerdict(fd); v != "" {
 						emit(pk, fd.Name.Name, v)
+						closes = append(closes, closeFact{pk + "." + fd.Name.Name, closeVerdict(fd, pp.TypesInfo)})
 					}
 				}
 			}
+		}
+		lf.raw("]\n\n")
+
+		lf.raw("/-- function taking a lock ↦ whose descriptor its unlock is given, and whether the file is still open then. -/\n")
+		lf.raw("def lockClose : List (String × String) := [")
+		for i, c := range closes {
+			if i > 0 {
+				lf.raw(", ")
+			}
+			lf.raw(fmt.Sprintf("(%q, %q)", c.name, c.verdict))
+		}
+		lf.raw("]\n\n")
+
+		lf.raw("/-- caller of cmsys.AppendRecord ↦ what it does with the error. -/\n")
+		lf.raw("def appendCallers : List (String × String) := [")
+		for i, c := range appendCallers(all) {
+			if i > 0 {
+				lf.raw(", ")
+			}
+			lf.raw(fmt.Sprintf("(%q, %q)", c[0], c[1]))
 		}
 		lf.raw("]\n")
 		lf.write(out)
@@ -224,4 +259,590 @@ func lockUserVerdict(fd *ast.FuncDecl) string {
 		}
 	}
 	return "no-defer"
+}
+
+// ---------------------------------------------------------------- round 4: every package, close order, callers
+
+// loadAllPackages loads every package of the repository (non-test files, default build tags), sorted by path.
+func loadAllPackages(l *loader) []*packages.Package {
+	cfg := &packages.Config{
+		Mode: packages.NeedName | packages.NeedFiles | packages.NeedSyntax | packages.NeedTypes |
+			packages.NeedTypesInfo | packages.NeedImports | packages.NeedDeps,
+		Dir: l.repo,
+		Env: append(os.Environ(), "GOFLAGS=-mod=mod", "GOPROXY=off", "GOSUMDB=off", "GOTOOLCHAIN=local"),
+	}
+	if l.tags != "" {
+		cfg.BuildFlags = []string{"-tags=" + l.tags}
+	}
+	ps, err := packages.Load(cfg, modPath+"/...")
+	if err != nil {
+		fatal("load %s/...: %v", modPath, err)
+	}
+	var out []*packages.Package
+	for _, p := range ps {
+		if len(p.Errors) > 0 {
+			fatal("load %s: %v", p.PkgPath, p.Errors)
+		}
+		if p.PkgPath == modPath || strings.HasPrefix(p.PkgPath, modPath+"/") {
+			out = append(out, p)
+		}
+	}
+	if len(out) == 0 {
+		fatal("load %s/...: no packages", modPath)
+	}
+	sort.Slice(out, func(i, j int) bool { return out[i].PkgPath < out[j].PkgPath })
+	return out
+}
+
+// cmsysFunc: the call's callee is the function cmsys.<one of names> (resolved by the type checker, so an
+// import alias or a dot import makes no difference; inside package cmsys the bare name).
+func cmsysFunc(info *types.Info, call *ast.CallExpr, names ...string) string {
+	var id *ast.Ident
+	switch f := call.Fun.(type) {
+	case *ast.SelectorExpr:
+		id = f.Sel
+	case *ast.Ident:
+		id = f
+	default:
+		return ""
+	}
+	fn, ok := info.Uses[id].(*types.Func)
+	if !ok || fn.Pkg() == nil || fn.Pkg().Path() != modPath+"/cmsys" {
+		return ""
+	}
+	if sig, ok := fn.Type().(*types.Signature); ok && sig.Recv() != nil {
+		return ""
+	}
+	for _, n := range names {
+		if fn.Name() == n {
+			return n
+		}
+	}
+	return ""
+}
+
+func identObj(info *types.Info, e ast.Expr) types.Object {
+	id, ok := e.(*ast.Ident)
+	if !ok {
+		return nil
+	}
+	if o := info.Uses[id]; o != nil {
+		return o
+	}
+	return info.Defs[id]
+}
+
+// stripConv removes parentheses and type conversions: uintptr(x), int(x), (x).
+func stripConv(info *types.Info, e ast.Expr) ast.Expr {
+	for {
+		switch x := e.(type) {
+		case *ast.ParenExpr:
+			e = x.X
+			continue
+		case *ast.CallExpr:
+			if len(x.Args) == 1 {
+				if tv, ok := info.Types[x.Fun]; ok && tv.IsType() {
+					e = x.Args[0]
+					continue
+				}
+			}
+		}
+		return e
+	}
+}
+
+// fdCallFile: e is `<ident>.Fd()` — the ident's object.
+func fdCallFile(info *types.Info, e ast.Expr) types.Object {
+	c, ok := stripConv(info, e).(*ast.CallExpr)
+	if !ok || len(c.Args) != 0 {
+		return nil
+	}
+	sel, ok := c.Fun.(*ast.SelectorExpr)
+	if !ok || sel.Sel.Name != "Fd" {
+		return nil
+	}
+	return identObj(info, stripConv(info, sel.X))
+}
+
+// fileOfLockArg resolves the first argument of a lock / unlock call to the *os.File variable it stands for:
+//
+//	file            (GoPttLock / GoPttUnlock)
+//	file.Fd()       possibly converted
+//	fd              where the function has exactly one assignment to fd and it is `fd := file.Fd()`
+//
+// why != "" when the shape is not one of these.
+func fileOfLockArg(info *types.Info, body *ast.BlockStmt, arg ast.Expr, wantFile bool) (file types.Object, why string) {
+	arg = stripConv(info, arg)
+	if wantFile {
+		if o := identObj(info, arg); o != nil {
+			return o, ""
+		}
+		return nil, "lock-arg"
+	}
+	if o := fdCallFile(info, arg); o != nil {
+		return o, ""
+	}
+	fdObj := identObj(info, arg)
+	if fdObj == nil {
+		return nil, "lock-arg"
+	}
+	n := 0
+	ast.Inspect(body, func(m ast.Node) bool {
+		switch s := m.(type) {
+		case *ast.AssignStmt:
+			for i, lhs := range s.Lhs {
+				if identObj(info, lhs) == fdObj {
+					n++
+					if len(s.Lhs) == len(s.Rhs) {
+						file = fdCallFile(info, s.Rhs[i])
+					}
+				}
+			}
+		case *ast.ValueSpec:
+			for i, name := range s.Names {
+				if info.Defs[name] == fdObj {
+					n++
+					if i < len(s.Values) {
+						file = fdCallFile(info, s.Values[i])
+					}
+				}
+			}
+		case *ast.IncDecStmt:
+			if identObj(info, s.X) == fdObj {
+				n += 2
+			}
+		case *ast.UnaryExpr:
+			if s.Op == token.AND && identObj(info, s.X) == fdObj {
+				n += 2 // address taken: may be changed elsewhere
+			}
+		}
+		return true
+	})
+	if n != 1 {
+		return nil, "fd-reassigned"
+	}
+	if file == nil {
+		return nil, "fd-origin"
+	}
+	return file, ""
+}
+
+// closeVerdict (fact 3) — for a function that takes one of the locks at its top level:
+//
+//	"unlock-before-close"   the deferred unlock is given the locked file's descriptor (the file itself,
+//	                        file.Fd(), or a variable assigned once from file.Fd()), and the file cannot be
+//	                        closed before that unlock runs: every Close of it is either registered with
+//	                        `defer` as a statement of the function body BEFORE the deferred unlock (so it runs
+//	                        after it), or is an explicit call on a path that returns before the unlock is
+//	                        registered (e.g. the error branch of the lock call itself); a function that
+//	                        never closes the file (the caller's file) is fine too
+//	"close-before-unlock"   an explicit Close after the unlock was registered (also `return file.Close()`),
+//	                        or a deferred Close registered after the deferred unlock: the unlock runs on a
+//	                        descriptor NUMBER that may by then name another goroutine's file
+//	"fd-mismatch"           the unlock is given another file's descriptor than the lock
+//	"unknown:<why>"         a shape this analysis does not recognise
+func closeVerdict(fd *ast.FuncDecl, info *types.Info) string {
+	locks := []string{"GoFlock", "GoFlockExNb", "GoPttLock"}
+	unlocks := []string{"GoFunlock", "GoPttUnlock"}
+	var lockCall *ast.CallExpr
+	ast.Inspect(fd.Body, func(n ast.Node) bool {
+		if c, ok := n.(*ast.CallExpr); ok && lockCall == nil && cmsysFunc(info, c, locks...) != "" {
+			lockCall = c
+		}
+		return lockCall == nil
+	})
+	if lockCall == nil || len(lockCall.Args) == 0 {
+		return "unknown:no-lock-call"
+	}
+	file, why := fileOfLockArg(info, fd.Body, lockCall.Args[0], cmsysFunc(info, lockCall, "GoPttLock") != "")
+	if why != "" {
+		return "unknown:" + why
+	}
+	// the deferred unlock: a statement of the function body
+	unlockIdx := -1
+	var unlockCall *ast.CallExpr
+	for k, s := range fd.Body.List {
+		d, ok := s.(*ast.DeferStmt)
+		if !ok {
+			continue
+		}
+		ast.Inspect(d, func(n ast.Node) bool {
+			if c, ok := n.(*ast.CallExpr); ok && unlockCall == nil && cmsysFunc(info, c, unlocks...) != "" {
+				unlockCall = c
+			}
+			return unlockCall == nil
+		})
+		if unlockCall != nil {
+			unlockIdx = k
+			break
+		}
+	}
+	if unlockCall == nil || len(unlockCall.Args) == 0 {
+		return "unknown:no-deferred-unlock"
+	}
+	ufile, why := fileOfLockArg(info, fd.Body, unlockCall.Args[0], cmsysFunc(info, unlockCall, "GoPttUnlock") != "")
+	if why != "" {
+		return "unknown:unlock-" + why
+	}
+	if ufile != file {
+		return "fd-mismatch"
+	}
+	unlockPos := fd.Body.List[unlockIdx].Pos()
+	// the file variable must stay the same file
+	reassigned := false
+	ast.Inspect(fd.Body, func(n ast.Node) bool {
+		if as, ok := n.(*ast.AssignStmt); ok {
+			for _, lhs := range as.Lhs {
+				if id, ok := lhs.(*ast.Ident); ok && info.Uses[id] == file { // Uses: not its definition
+					reassigned = true
+				}
+			}
+		}
+		return true
+	})
+	if reassigned {
+		return "unknown:file-reassigned"
+	}
+	// every Close of the file
+	verdict := "unlock-before-close"
+	var stack []ast.Node
+	ast.Inspect(fd.Body, func(n ast.Node) bool {
+		if n == nil {
+			stack = stack[:len(stack)-1]
+			return true
+		}
+		stack = append(stack, n)
+		c, ok := n.(*ast.CallExpr)
+		if !ok || !closesFile(info, c, file) {
+			return true
+		}
+		// inside a defer?
+		var def *ast.DeferStmt
+		for _, m := range stack {
+			if d, ok := m.(*ast.DeferStmt); ok {
+				def = d
+				break
+			}
+		}
+		if def != nil {
+			top := false
+			for k, s := range fd.Body.List {
+				if s == ast.Stmt(def) {
+					top = true
+					if k > unlockIdx {
+						verdict = "close-before-unlock"
+					}
+				}
+			}
+			if !top && verdict == "unlock-before-close" {
+				verdict = "unknown:conditional-deferred-close"
+			}
+			return true
+		}
+		if c.Pos() > unlockPos {
+			verdict = "close-before-unlock"
+			return true
+		}
+		// an explicit close before the unlock is registered: its block must leave the function
+		leaves := false
+		for k := len(stack) - 1; k >= 0; k-- {
+			if b, ok := stack[k].(*ast.BlockStmt); ok {
+				if len(b.List) > 0 {
+					_, leaves = b.List[len(b.List)-1].(*ast.ReturnStmt)
+				}
+				if b == fd.Body {
+					leaves = false // falls through to the deferred unlock
+				}
+				break
+			}
+		}
+		if !leaves {
+			verdict = "close-before-unlock"
+		}
+		return true
+	})
+	return verdict
+}
+
+// closesFile: file.Close(), or a Close(…) call of another package (syscall.Close, unix.Close) whose
+// arguments mention the file.
+func closesFile(info *types.Info, c *ast.CallExpr, file types.Object) bool {
+	sel, ok := c.Fun.(*ast.SelectorExpr)
+	if !ok || sel.Sel.Name != "Close" {
+		return false
+	}
+	if identObj(info, stripConv(info, sel.X)) == file {
+		return true
+	}
+	mentions := false
+	for _, a := range c.Args {
+		ast.Inspect(a, func(n ast.Node) bool {
+			if id, ok := n.(*ast.Ident); ok && info.Uses[id] == file {
+				mentions = true
+			}
+			return true
+		})
+	}
+	return mentions
+}
+
+// appendCallers (fact 4): one entry per call of cmsys.AppendRecord in the repository, "<pkg>.<func>"
+// (with "#k" from the second call in one function on).
+func appendCallers(all []*packages.Package) [][2]string {
+	var out [][2]string
+	for _, pp := range all {
+		pk := strings.TrimPrefix(strings.TrimPrefix(pp.PkgPath, modPath), "/")
+		for _, f := range pp.Syntax {
+			for _, d := range f.Decls {
+				fd, ok := d.(*ast.FuncDecl)
+				if !ok || fd.Body == nil {
+					continue
+				}
+				k := 0
+				var stack []ast.Node
+				ast.Inspect(fd.Body, func(n ast.Node) bool {
+					if n == nil {
+						stack = stack[:len(stack)-1]
+						return true
+					}
+					stack = append(stack, n)
+					if c, ok := n.(*ast.CallExpr); ok && cmsysFunc(pp.TypesInfo, c, "AppendRecord") != "" {
+						k++
+						name := pk + "." + fd.Name.Name
+						if fd.Recv != nil && len(fd.Recv.List) > 0 {
+							name = pk + "." + types.ExprString(fd.Recv.List[0].Type) + "." + fd.Name.Name
+						}
+						if k > 1 {
+							name += fmt.Sprintf("#%d", k)
+						}
+						out = append(out, [2]string{name, appendCallerVerdict(pp.TypesInfo, c, append([]ast.Node{}, stack...))})
+					}
+					return true
+				})
+			}
+		}
+	}
+	return out
+}
+
+func mentionsObj(info *types.Info, n ast.Node, o types.Object) bool {
+	found := false
+	ast.Inspect(n, func(m ast.Node) bool {
+		if id, ok := m.(*ast.Ident); ok && (info.Uses[id] == o) {
+			found = true
+		}
+		return !found
+	})
+	return found
+}
+
+// appendCallerVerdict — recognised shapes (err stands for the variable the call's error is assigned to):
+//
+//	return cmsys.AppendRecord(…)                                   "propagates"
+//	x, err := cmsys.AppendRecord(…)   followed, possibly after statements that do not touch err, by
+//	    if err != nil { <only logging / Close / error wrapping>; return … }   "propagates"
+//	    return …, err                                              "propagates"
+//	    if err != nil { <only logging> }  (no return) / nothing / err overwritten   "ignores"
+//	if _, err := cmsys.AppendRecord(…); err != nil { … }           as the `if` above
+//	_, _ = cmsys.AppendRecord(…) / x, _ := … / a bare call statement   "ignores"
+//	an error branch (any `if` whose condition mentions err) that calls AppendRecord again   "retries"
+//	an error branch that calls something that writes (SubstituteRecord, DeleteRecord, BinaryWrite, Write*,
+//	    WriteFile, OpenFile, Create, Fprint*, Truncate, Rename, LogFile*)   "fallback:<name>"
+//	an error branch that calls anything else but logrus.*, fmt.Errorf/Sprint*, errors.*, Close, Error,
+//	    verifhook.Point                                            "unknown:call-in-error-branch:<name>"
+//	anything else                                                  "unknown:<why>"
+func appendCallerVerdict(info *types.Info, call *ast.CallExpr, stack []ast.Node) string {
+	// the innermost statement holding the call, its parent, and the block + position it sits in
+	si := -1
+	for k := len(stack) - 1; k >= 0; k-- {
+		if _, ok := stack[k].(ast.Stmt); ok {
+			si = k
+			break
+		}
+	}
+	if si < 0 {
+		return "unknown:no-statement"
+	}
+	for k := si; k < len(stack); k++ {
+		if _, ok := stack[k].(*ast.FuncLit); ok {
+			return "unknown:in-closure"
+		}
+	}
+	switch s := stack[si].(type) {
+	case *ast.ReturnStmt:
+		if len(s.Results) == 1 && stripParen(s.Results[0]) == ast.Expr(call) {
+			return "propagates"
+		}
+		return "unknown:return-shape"
+	case *ast.ExprStmt:
+		if stripParen(s.X) == ast.Expr(call) {
+			return "ignores"
+		}
+		return "unknown:expr-shape"
+	case *ast.GoStmt, *ast.DeferStmt:
+		return "ignores"
+	case *ast.AssignStmt:
+		if len(s.Rhs) != 1 || stripParen(s.Rhs[0]) != ast.Expr(call) || len(s.Lhs) != 2 {
+			return "unknown:assign-shape"
+		}
+		eid, ok := s.Lhs[1].(*ast.Ident)
+		if !ok {
+			return "unknown:error-target"
+		}
+		if eid.Name == "_" {
+			return "ignores"
+		}
+		errObj := identObj(info, eid)
+		if errObj == nil {
+			return "unknown:error-target"
+		}
+		if si > 0 {
+			if ifs, ok := stack[si-1].(*ast.IfStmt); ok && ifs.Init == ast.Stmt(s) {
+				v, decided := errIfVerdict(info, ifs, errObj)
+				if decided {
+					return v
+				}
+				return "ignores"
+			}
+		}
+		if si == 0 {
+			return "unknown:no-block"
+		}
+		var list []ast.Stmt
+		switch b := stack[si-1].(type) {
+		case *ast.BlockStmt:
+			list = b.List
+		case *ast.CaseClause:
+			list = b.Body
+		case *ast.CommClause:
+			list = b.Body
+		default:
+			return "unknown:not-in-block"
+		}
+		idx := -1
+		for k, st := range list {
+			if st == ast.Stmt(s) {
+				idx = k
+			}
+		}
+		for _, st := range list[idx+1:] {
+			if !mentionsObj(info, st, errObj) {
+				if _, ok := st.(*ast.ReturnStmt); ok {
+					return "ignores"
+				}
+				continue
+			}
+			switch t := st.(type) {
+			case *ast.IfStmt:
+				if t.Init != nil && mentionsObj(info, t.Init, errObj) {
+					return "ignores" // err is given a new value before it is looked at
+				}
+				if !mentionsObj(info, t.Cond, errObj) {
+					return "unknown:err-use"
+				}
+				v, decided := errIfVerdict(info, t, errObj)
+				if decided {
+					return v
+				}
+				continue
+			case *ast.ReturnStmt:
+				return "propagates"
+			case *ast.AssignStmt:
+				onRhs := false
+				for _, r := range t.Rhs {
+					if mentionsObj(info, r, errObj) {
+						onRhs = true
+					}
+				}
+				if !onRhs {
+					return "ignores" // overwritten unread
+				}
+				return "unknown:err-use"
+			default:
+				return "unknown:err-use"
+			}
+		}
+		return "ignores"
+	}
+	return "unknown:call-shape"
+}
+
+func stripParen(e ast.Expr) ast.Expr {
+	for {
+		p, ok := e.(*ast.ParenExpr)
+		if !ok {
+			return e
+		}
+		e = p.X
+	}
+}
+
+// errIfVerdict looks at an `if` whose condition mentions err. decided = false: the branch neither
+// leaves the function nor does anything but logging (go on with the statements after it).
+func errIfVerdict(info *types.Info, ifs *ast.IfStmt, errObj types.Object) (string, bool) {
+	verdict := ""
+	var scan func(n ast.Node)
+	scan = func(n ast.Node) {
+		ast.Inspect(n, func(m ast.Node) bool {
+			c, ok := m.(*ast.CallExpr)
+			if !ok || verdict != "" && !strings.HasPrefix(verdict, "unknown:") {
+				return true
+			}
+			if tv, ok := info.Types[c.Fun]; ok && tv.IsType() {
+				return true // conversion
+			}
+			if cmsysFunc(info, c, "AppendRecord") != "" {
+				verdict = "retries"
+				return true
+			}
+			name, pkg := calleeName(c), ""
+			if sel, ok := c.Fun.(*ast.SelectorExpr); ok {
+				if fn, ok := info.Uses[sel.Sel].(*types.Func); ok && fn.Pkg() != nil {
+					pkg = fn.Pkg().Path()
+				}
+			} else if id, ok := c.Fun.(*ast.Ident); ok {
+				if _, isBuiltin := info.Uses[id].(*types.Builtin); isBuiltin {
+					return true
+				}
+			}
+			switch {
+			case isWriterName(name):
+				verdict = "fallback:" + name
+			case strings.HasSuffix(pkg, "/logrus") || pkg == "errors" || pkg == "log" || strings.HasSuffix(pkg, "/verifhook"):
+			case pkg == "fmt" && (name == "Errorf" || strings.HasPrefix(name, "Sprint")):
+			case name == "Close" || name == "Error" || name == "Is" || name == "As":
+			default:
+				if verdict == "" {
+					verdict = "unknown:call-in-error-branch:" + name
+				}
+			}
+			return true
+		})
+	}
+	scan(ifs.Body)
+	if ifs.Else != nil {
+		scan(ifs.Else)
+	}
+	if verdict != "" {
+		return verdict, true
+	}
+	if len(ifs.Body.List) > 0 {
+		if _, ok := ifs.Body.List[len(ifs.Body.List)-1].(*ast.ReturnStmt); ok {
+			cond := types.ExprString(ifs.Cond)
+			if strings.Contains(cond, "!= nil") {
+				return "propagates", true
+			}
+			return "unknown:conditional-return", true
+		}
+	}
+	return "", false
+}
+
+func isWriterName(n string) bool {
+	switch n {
+	case "SubstituteRecord", "DeleteRecord", "BinaryWrite", "Write", "WriteString", "WriteAt", "WriteFile", "OpenFile",
+		"Create", "Truncate", "Rename", "Fprintf", "Fprint", "Fprintln", "LogFile", "LogFilef", "Pwrite":
+		return true
+	}
+	return false
 }
